@@ -61,6 +61,10 @@ CLAIMED = {
   "Bounded symbolic model checking of the boolean iterator protocol over the real ConjunctionSearcher, DisjunctionSliceSearcher, DisjunctionHeapSearcher (container/heap from source), BooleanSearcher, OrderedSearcherList and DocumentMatchPool: for 9 query shapes (and / or / min-should / must-not, nesting depth 2), every assignment of document numbers to the leaf postings (arbitrary overlaps) and every forward driver sequence of Next/Advance calls, the documents returned are exactly those the query's meaning selects, in increasing order, none twice, and no match object is recycled while the caller holds it.",
   "Bounds: <= 3 leaves x 2 postings (3 thorough), <= 3 driver calls (4 thorough), min-should 0..2 (3); document numbers are bytes (the searchers only compare and copy document numbers, so every order pattern of the numbers involved is covered). Leaves are model posting lists obeying the Searcher contract; the first driver call is Next, as in every library caller (Advance as the very first call on a BooleanSearcher with a required should clause loses a posting on the pinned tree — an observation outside the public query path, see DESIGN.md). Outside: phrase, multi-phrase, prefix/wildcard/regexp/fuzzy/term-range expansion (vellum automata), geo (float trigonometry), query-string analysis, depth > 2; numeric/date ranges are C10; postings across segments and query optimisations are C08.",
   "DESIGN.md section 5 C07"),
+ "C20": (
+  "Bounded symbolic model checking of the real highlighter (SimpleFragmenter.Fragment, SimpleHighlighter.BestFragments/BestFragment with container/heap, FragmentQueue, Fragment.Overlaps, SimpleFragmentScorer.Score, OrderTermLocations, TermLocations.MergeOverlapping, HTML and ANSI formatters; unicode/utf8 from source): no panic for every text up to the stated length (invalid UTF-8 included) and every location set with 0 <= start <= end (out of range, overlapping, unsorted); for valid UTF-8 text and token-span locations every fragment is a rune-aligned piece of the text, stripping the markers gives back exactly that piece, every marked span is one match or a merged run, fragments do not overlap and number at most num, and the best fragment contains a match when one fits.",
+  "Bounds: no-fault part texts <= 3 bytes (4 thorough) with <= 2 (3) locations; faithfulness part 17 (20) rune layouts of up to 5 runes of 1-4 bytes with <= 2 (3) locations, fragment size 1..3 (4), 1..2 (3) fragments. html.EscapeString replaced by the identity on text free of HTML-special characters. Outside: longer texts, negative offsets (not producible by any analyzer), locations obtained from real searches with the bundled analyzers (arbitrary rune-aligned spans are used instead).",
+  "DESIGN.md section 5 C20"),
 }
 
 NA = {
